@@ -26,4 +26,120 @@ theorem hoist_eq_pass (n : Node) (h : isAnonSymbol n = true → gradsOfList n.ch
   | comment => simp [anonSymbolHoist, LocalPass.f, anonSymbolPass]
   | pi => simp [anonSymbolHoist, LocalPass.f, anonSymbolPass]
   | entity => simp [anonSymbolHoist, LocalPass.f, anonSymbolPass]
+
+mutual
+  /-- no gradient element anywhere in the subtree -/
+  def gradFree : Node → Bool
+    | .elem _ t _ cs => !isGradientTag t && gradFreeList cs
+    | _ => true
+  def gradFreeList : List Node → Bool
+    | [] => true
+    | c :: cs => gradFree c && gradFreeList cs
+end
+
+mutual
+  theorem gradsOf_of_free : ∀ n : Node, gradFree n = true → gradsOf n = []
+    | .elem u t a cs, h => by
+      simp only [gradFree, Bool.and_eq_true, Bool.not_eq_true'] at h
+      simp only [gradsOf, h.1]
+      exact gradsOfList_of_free cs h.2
+    | .text _, _ => rfl
+    | .comment, _ => rfl
+    | .pi, _ => rfl
+    | .entity, _ => rfl
+  theorem gradsOfList_of_free : ∀ cs : List Node, gradFreeList cs = true → gradsOfList cs = []
+    | [], _ => rfl
+    | c :: cs, h => by
+      simp only [gradFreeList, Bool.and_eq_true] at h
+      simp only [gradsOfList, gradsOf_of_free c h.1, gradsOfList_of_free cs h.2, List.append_nil]
+end
+
+theorem gradFreeList_append (xs ys : List Node) : gradFreeList (xs ++ ys) = (gradFreeList xs && gradFreeList ys) := by
+  induction xs with
+  | nil => simp [gradFreeList]
+  | cons x xs ih => simp [gradFreeList, ih, Bool.and_assoc]
+
+mutual
+  /-- the per-element pass keeps a gradient-free tree gradient-free -/
+  theorem free_rewrite : ∀ n : Node, gradFree n = true → gradFreeList (rewrite anonSymbolPass.f n) = true
+    | .elem u t a cs, h => by
+      simp only [gradFree, Bool.and_eq_true, Bool.not_eq_true'] at h
+      have ih := free_rewriteList cs false h.2
+      simp only [rewrite, LocalPass.f]
+      split
+      · rfl
+      · simp only [gradFreeList, gradFree, h.1, Bool.not_false, Bool.true_and, Bool.and_true]
+        exact ih
+    | .text _, _ => by simp [rewrite, LocalPass.f, anonSymbolPass, gradFreeList, gradFree]
+    | .comment, _ => by simp [rewrite, LocalPass.f, anonSymbolPass, gradFreeList, gradFree]
+    | .pi, _ => by simp [rewrite, LocalPass.f, anonSymbolPass, gradFreeList, gradFree]
+    | .entity, _ => by simp [rewrite, LocalPass.f, anonSymbolPass, gradFreeList, gradFree]
+  theorem free_rewriteList : ∀ (cs : List Node) (b : Bool), gradFreeList cs = true →
+      gradFreeList (rewriteList anonSymbolPass.f b cs) = true
+    | [], _, _ => by simp [rewriteList, gradFreeList]
+    | c :: cs, b, h => by
+      simp only [gradFreeList, Bool.and_eq_true] at h
+      have h1 := free_rewrite c h.1
+      cases b with
+      | false =>
+        simp only [rewriteList, gradFreeList_append, h1, Bool.true_and]
+        exact free_rewriteList cs _ h.2
+      | true =>
+        cases c with
+        | text s => simp only [rewriteList]; exact free_rewriteList cs false h.2
+        | elem u t a k => simp only [rewriteList, gradFreeList_append, h1, Bool.true_and]; exact free_rewriteList cs _ h.2
+        | comment => simp only [rewriteList, gradFreeList_append, h1, Bool.true_and]; exact free_rewriteList cs _ h.2
+        | pi => simp only [rewriteList, gradFreeList_append, h1, Bool.true_and]; exact free_rewriteList cs _ h.2
+        | entity => simp only [rewriteList, gradFreeList_append, h1, Bool.true_and]; exact free_rewriteList cs _ h.2
+end
+
+mutual
+  /-- no anonymous symbol of the subtree has a gradient below it -/
+  def symbolsGradFree : Node → Bool
+    | .elem u t a cs => (!isAnonSymbol (.elem u t a cs) || gradFreeList cs) && symbolsGradFreeList cs
+    | _ => true
+  def symbolsGradFreeList : List Node → Bool
+    | [] => true
+    | c :: cs => symbolsGradFree c && symbolsGradFreeList cs
+end
+
+mutual
+  theorem rewrite_hoist_eq : ∀ n : Node, symbolsGradFree n = true → rewrite anonSymbolHoist n = rewrite anonSymbolPass.f n
+    | .elem u t a cs, h => by
+      simp only [symbolsGradFree, Bool.and_eq_true, Bool.or_eq_true, Bool.not_eq_true'] at h
+      have ih := rewriteList_hoist_eq cs false h.2
+      simp only [rewrite, ih]
+      apply hoist_eq_pass
+      intro hs
+      have hs' : isAnonSymbol (.elem u t a cs) = true := by simpa [isAnonSymbol] using hs
+      rcases h.1 with h1 | h1
+      · rw [hs'] at h1; exact absurd h1 (by simp)
+      · exact gradsOfList_of_free _ (by simpa [Node.children] using free_rewriteList cs false h1)
+    | .text _, _ => by simp [rewrite, anonSymbolHoist, LocalPass.f, anonSymbolPass]
+    | .comment, _ => by simp [rewrite, anonSymbolHoist, LocalPass.f, anonSymbolPass]
+    | .pi, _ => by simp [rewrite, anonSymbolHoist, LocalPass.f, anonSymbolPass]
+    | .entity, _ => by simp [rewrite, anonSymbolHoist, LocalPass.f, anonSymbolPass]
+  theorem rewriteList_hoist_eq : ∀ (cs : List Node) (b : Bool), symbolsGradFreeList cs = true →
+      rewriteList anonSymbolHoist b cs = rewriteList anonSymbolPass.f b cs
+    | [], _, _ => by simp [rewriteList]
+    | c :: cs, b, h => by
+      simp only [symbolsGradFreeList, Bool.and_eq_true] at h
+      have h1 := rewrite_hoist_eq c h.1
+      cases b with
+      | false => simp only [rewriteList, h1]; rw [rewriteList_hoist_eq cs _ h.2]
+      | true =>
+        cases c with
+        | text s => simp only [rewriteList]; exact rewriteList_hoist_eq cs false h.2
+        | elem u t a k => simp only [rewriteList, h1]; rw [rewriteList_hoist_eq cs _ h.2]
+        | comment => simp only [rewriteList, h1]; rw [rewriteList_hoist_eq cs _ h.2]
+        | pi => simp only [rewriteList, h1]; rw [rewriteList_hoist_eq cs _ h.2]
+        | entity => simp only [rewriteList, h1]; rw [rewriteList_hoist_eq cs _ h.2]
+end
+
+/-- `remove_anonymous_symbols` as the code does it is the per-element pass on every document in which no anonymous symbol
+    has a gradient below it -/
+theorem removeAnonSymbolsH_eq (root : Node) (h : symbolsGradFreeList root.children = true) :
+    removeAnonSymbolsH root = removeAnonSymbols root := by
+  unfold removeAnonSymbolsH removeAnonSymbols rewriteBelow
+  rw [rewriteList_hoist_eq _ false h]
 end PicoSVG.Cleanup
